@@ -328,7 +328,7 @@ func TestCheckCLI(t *testing.T) {
 	cmds := allCommands()
 	s := harness.NewSub("cli-on-faulted-files",
 		fmt.Sprintf("random family graphs (wild dates, identifiers, sources) perturbed by 0..3 (thorough 0..5) structural faults from %d kinds (dangling / wrong-kind / empty HUSB-WIFE-CHIL, no or empty NAME, odd surnames incl. digits, symbols, multi-byte and invalid UTF-8, self-parent, self-spouse, cyclic parents, duplicate pointers, person and family sharing a pointer, empty family, source without title, odd dates, dangling FAMS/FAMC, duplicate child, no people, empty sub-records, a person named like a place of the file or people and places without any Latin letter, source pointers that are not plain identifiers); every file the decoder accepts is given to the built gedcom binary with a rotating third of %d command lines (warnings; publish x 3 visibilities x page-group switches x jobs; diff x show x sort; query x 20 documented-style queries x 5 formats; two-document queries); oracle: exit 0, or exit 1 with an ERROR: line; no panic / fatal error / goroutine dump; no hang; every distinct crash signature of a run is kept; non-trivial = at least one fault and two people", len(faultKinds), len(cmds)))
-	s.Rapid(t, harness.Share(harness.Pick(2000, 50000)), 140, func(rt *rapid.T) {
+	s.Rapid(t, harness.Share(harness.Pick(1500, 50000)), 140, func(rt *rapid.T) {
 		g, faults := genDoc(rt)
 		offset := rapid.IntRange(0, 2).Draw(rt, "cmdOffset")
 		nt := len(faults) >= 1 && len(g.People) >= 2
